@@ -308,6 +308,10 @@ def run_driver(ctx, scenarios, jobs=None, timeout=1800, race=False, label="atp",
     res = common.read_ndjson(out)
     if len(res) != len(scenarios):
         raise common.Infra("atp driver returned %d results for %d scenarios" % (len(res), len(scenarios)))
+    n = sum(1 for r in res if r.get("retried"))
+    if n:
+        # first attempt died or overran its time limit, two reruns alone completed: the rerun's result is used
+        ctx.extra["cases_rerun_after_unreproduced_first_attempt"] = ctx.extra.get("cases_rerun_after_unreproduced_first_attempt", 0) + n
     return res
 
 
